@@ -169,7 +169,17 @@ class BaseCollection:
                 istart == end or iend == start or
                 istart == start > radicale_filter.TIMESTAMP_MIN or
                 iend == end < radicale_filter.TIMESTAMP_MAX)
+            # An item without any date information (its enclosing range is
+            # the whole time line) is reported as matched only if no time
+            # range is requested: with one, the answer depends on its type
+            # (a VJOURNAL without DTSTART never matches, a VTODO without
+            # dates always does)
+            undated = (istart <= radicale_filter.TIMESTAMP_MIN and
+                       iend >= radicale_filter.TIMESTAMP_MAX)
+            unlimited = (start <= radicale_filter.TIMESTAMP_MIN and
+                         end >= radicale_filter.TIMESTAMP_MAX)
             yield item, simple and not touching and (
+                unlimited or not undated) and (
                 start <= istart or iend <= end)
 
     def has_uid(self, uid: str) -> bool:
